@@ -480,6 +480,17 @@ pub struct ShardCtx<'a> {
 /// Drive `check` over `cases` generated choice-streams of at most `max_choices` u32s.
 /// New violations are shrunk by proptest and appended to `acc.violations`; the search continues
 /// past them (and past known findings) until the case budget is used.
+thread_local! {
+    static SHRINK_ITERS: std::cell::Cell<u32> = const { std::cell::Cell::new(1500) };
+    static MAX_ROUNDS: std::cell::Cell<u64> = const { std::cell::Cell::new(12) };
+}
+
+/// expensive properties shrink less and stop after fewer distinct new signatures
+pub fn set_search_limits(shrink_iters: u32, max_new_signatures: u64) {
+    SHRINK_ITERS.with(|c| c.set(shrink_iters));
+    MAX_ROUNDS.with(|c| c.set(max_new_signatures));
+}
+
 pub fn drive(
     ctx: &ShardCtx,
     stream: &str,
@@ -491,12 +502,14 @@ pub fn drive(
     let mut remaining = cases as i64;
     let mut round = 0u64;
     let mut reported: HashSet<String> = acc.violations.iter().map(|v| v.signature.clone()).collect();
-    while remaining > 0 && round < 12 {
+    let max_rounds = MAX_ROUNDS.with(|c| c.get());
+    let shrink_iters = SHRINK_ITERS.with(|c| c.get());
+    while remaining > 0 && round < max_rounds {
         let cfg = PtConfig {
             cases: remaining as u32,
             failure_persistence: None,
             rng_seed: RngSeed::Fixed(mix(ctx.seed, &format!("{}/{}", ctx.prop, stream), ctx.shard as u64, round)),
-            max_shrink_iters: 1500,
+            max_shrink_iters: shrink_iters,
             max_global_rejects: 1,
             ..PtConfig::default()
         };
